@@ -81,7 +81,7 @@ def gen_mixfit(g, kind=None, thorough=False):
     E = int(g.choice([2, 3, 4]))
     if thorough and g.coin(0.3):
         K = int(g.choice([2, 3, 4]))
-        D = int(g.choice([2, 3, 4, 5, 6, 7, 8]))
+        D = int(g.choice([2, 3, 4, 5, 6, 7, 8, 9, 10]))
     integration = kind in models.INTEGRATION
     opts = {}
     aligner = None
@@ -112,12 +112,18 @@ def gen_mixfit(g, kind=None, thorough=False):
         N = int(g.rng.randint(260, 600))    # size-dependent code paths
     if kind in ('gmm', 'gcacgmm') and g.coin(0.04):
         N = int(g.rng.randint(4200, 6000)) // max(F, 1)
+    if aligner is not None and kind != 'cbmm' and g.coin(0.05):
+        N = int(g.rng.randint(2000, 2600))  # long signals with inline aligner
     a = {'op': 'mixfit', 'kind': kind, 'K': K, 'D': D, 'F': F, 'N': N, 'E': E}
-    if kind in models.COMPLEX_OBS:
+    if kind == 'cwmm' and g.coin(0.3):
+        hi = float(g.choice([30.0, 300.0, 640.0]))
+        a['obs'] = _mk(g, 'cdirectional', lead + [N, D], K=K,
+                       kappa_low=float(g.choice([5.0, hi / 2])), kappa_high=hi)
+    elif kind in models.COMPLEX_OBS:
         a['obs'] = _mk(g, g.choice(['cnormal', 'cclusters', 'cclusters']),
                        lead + [N, D], K=K,
                        spread=float(g.choice([1.0, 1.0, 0.3, 0.05, 0.01])),
-                       dynamic_range=float(g.choice([0, 0, 0, 6, 12])))
+                       dynamic_range=float(g.choice([0, 0, 0, 6, 12, 19])))
     elif kind == 'vmfmm':
         a['obs'] = _mk(g, g.choice(['normal', 'rclusters']), lead + [N, D], K=K,
                        sep=float(g.choice([2.0, 2.0, 6.0, 30.0])))
@@ -215,7 +221,7 @@ def gen_distfit(g):
     if kind == 'bingham':
         lead = []
     if kind in ('watson', 'vmf', 'gaussian', 'ccsg') and g.coin(0.3):
-        D = int(g.choice([2, 6, 7, 8]))
+        D = int(g.choice([2, 6, 7, 8, 9, 10, 12]))
         N = max(N, D + 2)
     a = {'op': 'distfit', 'kind': kind, 'D': D, 'opts': {}}
     # directional trainers: visit the whole concentration range
@@ -336,10 +342,12 @@ def generate(run_seed, tier='quick'):
     tk = {}
     if g.coin(0.3):
         tk['cwmm'] = g.choice([{'max_concentration': 100}, {'spline_markers': 300},
-                               {'max_concentration': 50, 'spline_markers': 2000}])
+                               {'max_concentration': 50, 'spline_markers': 2000},
+                               {'max_concentration': 650}])
     if g.coin(0.3):
         tk['dist:watson'] = g.choice([{'max_concentration': 100},
-                                      {'spline_markers': 300}])
+                                      {'spline_markers': 300},
+                                      {'max_concentration': 650}])
     if g.coin(0.3):
         tk['cbmm'] = {'max_concentration': float(g.choice([20.0, 50.0, 200.0]))}
     if g.coin(0.3):
